@@ -16,6 +16,9 @@
 //!        | B/<node>/<type>/<cons>/<serial o>/<ts o>/<items>       items: p<s>.<value> | q<text>, '+'-joined
 //!        | Y/<d0>/<d1>      the next two X ops run CONCURRENTLY (same statement handle, different nodes); every answer
 //!                           of the first / second one's node is delayed by d0 / d1 ms
+//!        | Z/<k>/<ms>       the next k X ops (DISTINCT statements, one node = one connection) run CONCURRENTLY (join_all)
+//!                           while the node answers every PREPARE after <ms> milliseconds (several evicted statements
+//!                           re-prepared over one connection at the same time)
 //!        | E/<node>/<p|e|s|i>/<s>/<arg>
 //!        | F/<node>/<resp>                                        (forced answer to the next user request at node)
 //!   in a MIXED cluster the nodes without the extension start at schema version 1 (where the statement has one), so
@@ -109,6 +112,7 @@ enum Op {
     I { s: usize, node: usize, uc: bool, psize: u32, value: Vec<u8>, cons: u16, serial: Option<u16>, ts: Option<i64>, pseed: u64, pages: u32 },
     B { node: usize, btype: u8, cons: u16, serial: Option<u16>, ts: Option<i64>, items: Vec<BItem> },
     Y { d0: u64, d1: u64 },
+    Z { k: usize, ms: u64 },
     E { node: usize, kind: char, s: usize, arg: u64 },
     F { node: usize, resp: Resp },
 }
@@ -307,6 +311,7 @@ impl Case {
                     format!("B/{:x}/{:x}/{:x}/{}/{}/{}", node, btype, cons, enc_on(serial.map(|x| x as u64)), enc_ots(*ts), it.join("+"))
                 }
                 Op::Y { d0, d1 } => format!("Y/{:x}/{:x}", d0, d1),
+                Op::Z { k, ms } => format!("Z/{:x}/{:x}", k, ms),
                 Op::E { node, kind, s, arg } => format!("E/{:x}/{}/{:x}/{:x}", node, kind, s, arg),
                 Op::F { node, resp } => format!("F/{:x}/{}", node, enc_resp(resp)),
             });
@@ -385,6 +390,7 @@ impl Case {
                         .collect(),
                 },
                 "Y" => Op::Y { d0: h(p[1]), d1: h(p[2]) },
+                "Z" => Op::Z { k: h(p[1]) as usize, ms: h(p[2]) },
                 "E" => Op::E { node: h(p[1]) as usize, kind: p[2].chars().next().unwrap(), s: h(p[3]) as usize, arg: h(p[4]) },
                 "F" => Op::F { node: h(p[1]) as usize, resp: dec_resp(p[2]) },
                 _ => return None,
@@ -417,6 +423,7 @@ struct Srv {
     pages_left: u32,
     min_rows: u32,
     delay: Vec<u64>,
+    delay_prepare: u64,
 }
 
 fn gen_cell(r: &mut Rng, t: CT) -> CellV {
@@ -840,6 +847,7 @@ async fn run_case(c: Case) -> String {
         pages_left: 0,
         min_rows: 0,
         delay: vec![0; c.nnodes],
+        delay_prepare: 0,
     }));
     {
         let srv = srv.clone();
@@ -863,6 +871,8 @@ async fn run_case(c: Case) -> String {
             let mut acts = actions_of(&resp, s.exts[ctx.node]);
             if s.logging && s.delay[ctx.node] > 0 {
                 acts.insert(0, Action::Delay(s.delay[ctx.node]));
+            } else if s.logging && s.delay_prepare > 0 && ctx.opcode == op::PREPARE {
+                acts.insert(0, Action::Delay(s.delay_prepare));
             }
             Some(acts)
         })));
@@ -947,6 +957,58 @@ async fn run_case(c: Case) -> String {
         let o = &c.ops[oi];
         oi += 1;
         match o {
+            Op::Z { k, ms } => {
+                // the next k X ops: distinct statements, the same node, all at once over its one connection
+                let mut xs: Vec<(usize, bool, Option<u32>, Option<Vec<u8>>, Vec<u8>, u16, Option<u16>, Option<i64>)> = vec![];
+                let mut znode = 0usize;
+                for j in 0..*k {
+                    let Some(Op::X { s, node, uc, psize, paging, value, cons, serial, ts, .. }) = c.ops.get(oi + j) else {
+                        return "error malformed-case Z needs k X ops".into();
+                    };
+                    znode = *node;
+                    xs.push((*s, *uc, *psize, paging.clone(), value.clone(), *cons, *serial, *ts));
+                }
+                oi += *k;
+                {
+                    let mut g = srv.lock().unwrap();
+                    g.pseed = 0x5eed;
+                    g.pcount = 0;
+                    g.haspg = false;
+                    g.log.clear();
+                    g.delay_prepare = *ms;
+                }
+                target.store(znode, Ordering::SeqCst);
+                let futs = xs.iter().map(|(s, uc, psize, paging, value, cons, serial, ts)| exec_x(&session, &prepared[*s], *uc, *psize, paging, value, *cons, *serial, *ts));
+                let results = futures::future::join_all(futs).await;
+                let log: Vec<(usize, String, Resp)> = {
+                    let mut g = srv.lock().unwrap();
+                    g.delay_prepare = 0;
+                    std::mem::take(&mut g.log)
+                };
+                let frames_ok = user_frames(&cluster, &srv) == log.len();
+                let sids: Vec<String> = c.stmts.iter().map(|st| hex_bytes(&st.sid)).collect();
+                for ((s, ..), res) in xs.iter().zip(results) {
+                    let out = outcome_of(res);
+                    if !frames_ok {
+                        obs.push(format!("O/{:x}/TRACE-MISMATCH/{}", znode, out));
+                        continue;
+                    }
+                    // the statements are distinct: an exchange belongs to the caller of its statement
+                    let mine: Vec<_> = log
+                        .iter()
+                        .filter(|(_, q, _)| {
+                            let f: Vec<&str> = q.split(':').collect();
+                            match f[0] {
+                                "x" => f[1].starts_with(&sids[*s]),
+                                "p" => usize::from_str_radix(f[1], 16).map(|t| t == *s + 1).unwrap_or(false),
+                                _ => false,
+                            }
+                        })
+                        .cloned()
+                        .collect();
+                    obs.push(obs_token(znode, &mine, &out));
+                }
+            }
             Op::Y { d0, d1 } => {
                 // the next two X ops, concurrently, through clones of the same PreparedStatement
                 let (Some(Op::X { s: s0, node: n0, uc: uc0, psize: ps0, paging: pg0, value: v0, cons: c0, serial: se0, ts: t0, pseed, .. }), Some(Op::X { s: s1, node: n1, uc: uc1, psize: ps1, paging: pg1, value: v1, cons: c1, serial: se1, ts: t1, .. })) = (c.ops.get(oi), c.ops.get(oi + 1)) else {
@@ -1252,6 +1314,7 @@ async fn run_prepare_case(line: String) -> String {
         pages_left: 0,
         min_rows: 0,
         delay: vec![0; nnodes],
+        delay_prepare: 0,
     }));
     for o in &c.ops {
         match o {
@@ -1407,6 +1470,47 @@ fn mid_for(cols: &[Col], taken: &[(Vec<u8>, Vec<Col>)]) -> Vec<u8> {
     }
     d
 }
+/// Several DISTINCT statements evicted on one node and executed at the same time over its one connection,
+/// with slow PREPARE answers: every caller must get its re-preparation and its rows.
+fn gen_z_case(r: &mut Rng) -> Case {
+    let mut c = gen_case(r);
+    let k = 2 + r.below(3) as usize;
+    let base = c.stmts[0].clone();
+    // k statements that return rows (copies of the first one's versions under their own ids, or fresh ones)
+    c.stmts = (0..k)
+        .map(|s| {
+            let mut st = if base.vers[0].cols.is_empty() || r.bool() {
+                let cols = gen_cols(r);
+                Stmt { late: false, sid: vec![], vers: vec![Ver { mid: mid_for(&cols, &[]), cols: cols.clone() }, Ver { mid: mid_for(&cols, &[]), cols }] }
+            } else {
+                base.clone()
+            };
+            st.late = false;
+            st.sid = vh::mocknode::types::digest16(stmt_text(s).as_bytes());
+            st
+        })
+        .collect();
+    let node = r.below(c.nnodes as u64) as usize;
+    let mut ops = vec![];
+    let rounds = 1 + r.below(2);
+    for _ in 0..rounds {
+        for s in 0..k {
+            ops.push(Op::E { node, kind: 'e', s, arg: 0 });
+        }
+        ops.push(Op::Z { k, ms: *r.pick(&[50u64, 80, 120, 150]) });
+        let mut order: Vec<usize> = (0..k).collect();
+        r.shuffle(&mut order);
+        for s in order {
+            ops.push(Op::X { s, node, uc: r.bool(), psize: None, paging: None, value: rb0(r, 5), cons: *r.pick(&[1u16, 4, 6]), serial: None, ts: if r.chance(1, 3) { Some(r.below(1 << 40) as i64) } else { None }, pseed: r.below(1 << 20), haspg: false });
+        }
+    }
+    // uniform cluster (the bookkeeping then also runs)
+    let e = c.exts[0];
+    c.exts = vec![e; c.nnodes];
+    c.ops = ops;
+    c
+}
+
 fn gen_case(r: &mut Rng) -> Case {
     let nnodes = 1 + r.below(3) as usize;
     let mut exts = vec![r.bool(); nnodes];
@@ -1560,7 +1664,17 @@ fn main() {
         Some(p) => read_cases(p),
         None => {
             let mut r = Rng::new(args.seed);
-            (0..args.n).map(|_| if r.chance(1, 12) { gen_prepare_case(&mut r) } else { gen_case(&mut r).line() }).collect()
+            (0..args.n)
+                .map(|_| {
+                    if r.chance(1, 12) {
+                        gen_prepare_case(&mut r)
+                    } else if r.chance(1, 14) {
+                        gen_z_case(&mut r).line()
+                    } else {
+                        gen_case(&mut r).line()
+                    }
+                })
+                .collect()
         }
     };
     let par: usize = std::env::var("C14_PAR").ok().and_then(|s| s.parse().ok()).unwrap_or(6);
